@@ -112,6 +112,14 @@ def apply_post(x, p):
         return x * (10.0 ** p['e'])
     if t == 'negate':
         return -x
+    if t == 'taper':                       # tapered epochs: smooth onset and offset
+        n = len(x)
+        m = max(2, int(p['frac'] * n / 2))
+        w = np.ones(n)
+        ramp = 0.5 - 0.5 * np.cos(np.pi * np.arange(m) / m)
+        w[:m] = ramp
+        w[n - m:] = ramp[::-1]
+        return x * w
     raise ValueError(t)
 
 
@@ -229,7 +237,9 @@ def st_component(draw, band, n):
 
 @st.composite
 def st_post(draw):
-    t = draw(st.sampled_from(['quantise', 'intquant', 'clip', 'zero', 'hold', 'dc', 'scale', 'negate']))
+    t = draw(st.sampled_from(['quantise', 'intquant', 'clip', 'zero', 'hold', 'dc', 'scale', 'negate', 'taper']))
+    if t == 'taper':
+        return {'type': t, 'frac': draw(st.sampled_from([0.2, 0.5, 1.0]))}
     if t == 'quantise':
         return {'type': t, 'levels': draw(st.integers(2, 32))}
     if t == 'intquant':
